@@ -191,34 +191,27 @@ theorem sstep_reachable {d d' : DState} {st : SStep} {ev : String} (h : Reachabl
       · simp at hs
       next q hq =>
         split at hs
-        · cases he : endAttempt d.s r .ok with
-          | none => simp [he] at hs
-          | some s1 => simp [he] at hs; obtain ⟨hd, _⟩ := hs; subst hd; exact endAttempt_reachable h he
         · split at hs
-          · split at hs
+          · simp at hs
+          next s1 h1 => exact continueOrRet_reachable (endAttempt_reachable h h1) hs
+        · split at hs
+          · simp at hs
+          next code hcode =>
+            split at hs
             · simp at hs
             next s1 h1 =>
               have hr1 := strikesN_reachable h h1
-              cases he : endAttempt s1 r .ok with
-              | none => simp [he] at hs
-              | some s2 => simp [he] at hs; obtain ⟨hd, _⟩ := hs; subst hd; exact endAttempt_reachable hr1 he
-          · split at hs
-            · split at hs
-              · simp at hs
-              next s1 h1 => exact continueOrRet_reachable (endAttempt_reachable h h1) hs
-            · split at hs
-              · cases he : endAttempt d.s r .panic with
+              split at hs
+              · cases he : endAttempt s1 r .panic with
                 | none => simp [he] at hs
-                | some s1 => simp [he] at hs; obtain ⟨hd, _⟩ := hs; subst hd; exact endAttempt_reachable h he
+                | some s2 => simp [he] at hs; obtain ⟨hd, _⟩ := hs; subst hd; exact endAttempt_reachable hr1 he
               · split at hs
-                · cases he : endAttempt d.s r .panic with
+                · cases he : endAttempt s1 r .handlerErr with
                   | none => simp [he] at hs
-                  | some s1 => simp [he] at hs; obtain ⟨hd, _⟩ := hs; subst hd; exact endAttempt_reachable h he
-                · split at hs
-                  · cases he : endAttempt d.s r .handlerErr with
-                    | none => simp [he] at hs
-                    | some s1 => simp [he] at hs; obtain ⟨hd, _⟩ := hs; subst hd; exact endAttempt_reachable h he
-                  · simp at hs
+                  | some s2 => simp [he] at hs; obtain ⟨hd, _⟩ := hs; subst hd; exact endAttempt_reachable hr1 he
+                · cases he : endAttempt s1 r .ok with
+                  | none => simp [he] at hs
+                  | some s2 => simp [he] at hs; obtain ⟨hd, _⟩ := hs; subst hd; exact endAttempt_reachable hr1 he
     · simp at hs
   | abort r =>
     simp only [sstep] at hs
